@@ -16,7 +16,6 @@ use futures::{stream::FuturesUnordered, StreamExt};
 #[cfg(test)]
 use mockall::automock;
 use secp256k1::hashes::sha256;
-use tokio::join;
 use tracing::{debug, instrument, warn};
 
 use crate::rpc::{ClnRpc, RpcError};
@@ -147,15 +146,12 @@ where
     /// `wait_payment` waits until a payment is fully resolved and no htlcs for
     /// the given payment hash are outgoing anymore.
     async fn wait_payment(&self, payment_hash: sha256::Hash) -> Result<Option<Vec<u8>>> {
-        let completed_req = ListsendpaysRequest {
-            payment_hash: Some(payment_hash),
-            bolt11: None,
-            index: None,
-            limit: None,
-            start: None,
-            status: Some(ListsendpaysStatus::COMPLETE),
-        };
-        let completed_payments_fut = self.rpc.listsendpays(&completed_req);
+        // Query the pending parts before the completed parts, one after the
+        // other. A part that is not in the pending list has reached its final
+        // state, so if it completed it shows up in the completed list queried
+        // afterwards. A part that is in the pending list is awaited below.
+        // Querying in the other order (or concurrently) can miss a part that
+        // completes between the two queries.
         let pending_req = ListsendpaysRequest {
             payment_hash: Some(payment_hash),
             bolt11: None,
@@ -164,10 +160,16 @@ where
             start: None,
             status: Some(ListsendpaysStatus::PENDING),
         };
-        let pending_payments_fut = self.rpc.listsendpays(&pending_req);
-        let (completed_payments, pending_payments) =
-            join!(completed_payments_fut, pending_payments_fut);
-        let (completed_payments, pending_payments) = (completed_payments?, pending_payments?);
+        let pending_payments = self.rpc.listsendpays(&pending_req).await?;
+        let completed_req = ListsendpaysRequest {
+            payment_hash: Some(payment_hash),
+            bolt11: None,
+            index: None,
+            limit: None,
+            start: None,
+            status: Some(ListsendpaysStatus::COMPLETE),
+        };
+        let completed_payments = self.rpc.listsendpays(&completed_req).await?;
 
         if let Some(preimage) = completed_payments
             .payments
